@@ -1,5 +1,6 @@
 (* C04 — Rotate is a pure change of origin on circular sequences. *)
-From GTS Require Import Base Arith Loc Seq BaseLemmas LocProofs EditProofs SeqProofs.
+From Coq Require Import Permutation.
+From GTS Require Import Base Arith Loc Seq BaseLemmas LocProofs EditProofs SeqProofs RotateProofs.
 Open Scope Z_scope.
 
 (* residues: the rotated sequence is p[m:] ++ p[:m] with m = L - n mod L, for
@@ -17,6 +18,70 @@ Theorem C04_residue_moves : forall (p : list byte) n k d, 0 < zlen p -> 0 <= k <
   nth (Z.to_nat ((k + n) mod L)) (skipn m p ++ firstn m p) d = nth (Z.to_nat k) p d.
 Proof. exact nth_rotate. Qed.
 Print Assumptions C04_residue_moves.
+
+(* Features.  rot_ok: the location is built from between-sites, points,
+   (partial) ranges shorter than L, ambiguous spans that do not cross the new
+   origin, order(...) and complement(...) nested to any depth, coordinates
+   >= 0.  For EVERY feature table of such features, any L >= 1 and any integer
+   n: Rotate succeeds, the residues are re-spliced, and the output table is a
+   permutation of the input table in which every feature keeps key and
+   qualifiers and denotes exactly its former residues, each moved to
+   (x + n) mod L, in the same order and on the same strand.
+   PARTIAL: join(...) in the INPUT location (K1 makes the statement false for
+   some joins) is decided by the correspondence and the oracle. *)
+Theorem C04_features_partial : forall s n, let L := zlen (residues s) in 0 < L ->
+  Forall (rot_ok n L) (feats s) ->
+  exists gg ls,
+    seq_rotate s n = Ok (mkseq gg (skipn (Z.to_nat (L - n mod L)) (residues s) ++ firstn (Z.to_nat (L - n mod L)) (residues s))) /\
+    Forall2 (fun f l => den l = map (onpos (fun x => (x + n) mod L)) (den (floc f))) (feats s) ls /\
+    Permutation gg (relocate (feats s) ls).
+Proof. exact seq_rotate_features. Qed.
+Print Assumptions C04_features_partial.
+
+(* ... and all coordinates of the result lie in [0,L] *)
+Theorem C04_coordinates_partial : forall n L, 0 <= n < L -> forall l,
+  jfree l = true -> wf_all (awf n L) l = true ->
+  forall l', rot_loc n L l = Ok l' -> cin L l' = true.
+Proof. exact rotate_cin. Qed.
+Print Assumptions C04_coordinates_partial.
+
+(* a range that now spans the origin is written as a join reading across it,
+   the 5' marker on the part before the origin and the 3' marker on the part
+   after it; one that does not is a single range with both markers *)
+Theorem C04_range_across_origin : forall n L s e p5 p3, 0 <= n < L -> 0 <= s < e -> e - s < L ->
+  (s + n) / L <> (e + n - 1) / L ->
+  rot_loc n L (Ranged s e p5 p3) =
+  Ok (Joined [Ranged ((s + n) mod L) L p5 false; Ranged 0 ((e + n - 1) mod L + 1) false p3]).
+Proof. exact rot_range_across. Qed.
+Print Assumptions C04_range_across_origin.
+
+Theorem C04_range_inside : forall n L s e p5 p3, 0 <= n < L -> 0 <= s < e -> e - s < L ->
+  (s + n) / L = (e + n - 1) / L ->
+  rot_loc n L (Ranged s e p5 p3) = Ok (Ranged ((s + n) mod L) ((e + n - 1) mod L + 1) p5 p3).
+Proof. exact rot_range_inside. Qed.
+Print Assumptions C04_range_inside.
+
+(* a full-length feature stays full-length, markers kept *)
+Theorem C04_full_length : forall n L p5 p3, 0 <= n < L ->
+  rot_loc n L (Ranged 0 L p5 p3) = Ok (Ranged 0 L p5 p3).
+Proof. exact rot_full_length. Qed.
+Print Assumptions C04_full_length.
+
+(* positions compose additively; a multiple of L is the identity *)
+Theorem C04_positions_additive : forall L a b x, ((x + a) mod L + b) mod L = (x + (a + b)) mod L.
+Proof. exact rot_pos_additive. Qed.
+Theorem C04_positions_multiple : forall L k x, 0 < L -> 0 <= x < L -> (x + k * L) mod L = x.
+Proof. exact rot_pos_multiple. Qed.
+
+(* the hypotheses are met by a reverse-strand partial range beside an ordered
+   pair and an ambiguous span, rotated so that the range crosses the origin *)
+Example C04_hypotheses_met :
+  let f1 := mkfeat [103] (Complemented (Ranged 6 9 true false)) [] in
+  let f2 := mkfeat [104] (Ordered [Point 1; Ambiguous 2 4]) [] in
+  rot_ok 3 10 f1 /\ rot_ok 3 10 f2 /\
+  rot_loc 3 10 (floc f1) = Ok (Complemented (Joined [Ranged 9 10 true false; Ranged 0 2 false false])) /\
+  rot_loc 3 10 (floc f2) = Ok (Ordered [Point 4; Ambiguous 5 7]).
+Proof. vm_compute. repeat split; reflexivity. Qed.
 
 Example C04_example : rotate_bytes [97; 98; 99; 100; 101] (- 7) = Ok [99; 100; 101; 97; 98].
 Proof. vm_compute. reflexivity. Qed.
